@@ -104,7 +104,7 @@ def r1(repo, chk):
     c01.r1b(repo, sub, sites)
     wa = Fn(repo, CONN + "_write_application")
     loops = [l for l in wa.stmts(lambda s: isinstance(s, ast.For)) if "self._retire_connection_ids" in norm(l.iter)]
-    ok = len(loops) == 1 and norm(loops[0].iter) == "self._retire_connection_ids[:]"
+    ok = len(loops) == 1 and norm(loops[0].iter) in ("self._retire_connection_ids[:]", "list(self._retire_connection_ids)", "tuple(self._retire_connection_ids)", "self._retire_connection_ids.copy()")
     chk.ob("R1", "_write_application announces every pending retirement (iterates over a copy of the list while consuming it)", ok, "", wa.loc(wa.node))
     cids = [l for l in wa.stmts(lambda s: isinstance(s, ast.For)) if norm(l.iter) == "self._host_cids"]
     ok = False
